@@ -108,12 +108,12 @@ pub struct RunResult {
 pub type Body = Box<dyn FnOnce() + Send + 'static>;
 
 /// Run `bodies` as managed threads under `schedule`.  `observe` is called by the controller
-/// after every step (all managed threads parked or finished); what it returns is merged into
-/// the `step` event.  `log_steps = false` suppresses the per-step events (only thread events).
+/// after every step (all managed threads parked or finished) with the site at which each thread
+/// is parked ("end" when finished); what it returns is merged into the `step` event.  `log_steps = false` suppresses the per-step events (only thread events).
 pub fn run(
     bodies: Vec<Body>,
     schedule: &[usize],
-    mut observe: impl FnMut() -> Value,
+    mut observe: impl FnMut(&[&'static str]) -> Value,
     log_steps: bool,
     max_steps: usize,
 ) -> RunResult {
@@ -226,8 +226,17 @@ pub fn run(
                 TState::Finished => ("end", 0, 0),
                 _ => ("?", 0, 0),
             };
+            let sites: Vec<&'static str> = g
+                .st
+                .iter()
+                .map(|s| match s {
+                    TState::Parked(x, _, _) => *x,
+                    TState::Finished => "end",
+                    _ => "?",
+                })
+                .collect();
             drop(g);
-            let obs = observe();
+            let obs = observe(&sites);
             let mut e = json!({"op":"step","t":t,"from":from,"to":to,"a":a.to_string(),"b":b.to_string()});
             if let (Some(o), Some(x)) = (e.as_object_mut(), obs.as_object()) {
                 for (k, v) in x {
